@@ -217,9 +217,9 @@ fn render_history(ctx: &Ctx, st: &mut Stats, seed: u64, png: bool, j: &J) {
         let (qr2, spec2) = (qr.clone(), spec.clone());
         pool::on_fresh_thread(move || {
             adapter::guarded(|| {
-                let svg = spec2.svg_builder().to_str(&qr2);
+                let svg = spec2.svg_builder_canonical().to_str(&qr2);
                 let term = qr2.to_str();
-                let png_bytes = if png { spec2.image_builder().to_bytes(&qr2).ok() } else { None };
+                let png_bytes = if png { spec2.image_builder_canonical().to_bytes(&qr2).ok() } else { None };
                 (svg, term, png_bytes)
             })
         })
@@ -245,7 +245,7 @@ fn render_history(ctx: &Ctx, st: &mut Stats, seed: u64, png: bool, j: &J) {
         }
         let a = used.to_str(&qr);
         let b = used.to_str(&qr);
-        let fresh = spec.svg_builder().to_str(&qr);
+        let fresh = spec.svg_builder_canonical().to_str(&qr);
         (a, b, fresh)
     });
     let (a, b, fresh) = match r {
@@ -287,7 +287,7 @@ fn render_history(ctx: &Ctx, st: &mut Stats, seed: u64, png: bool, j: &J) {
             }
             let a = used.to_bytes(&qr).map_err(|e| e.to_string());
             let b = used.to_bytes(&qr).map_err(|e| e.to_string());
-            let fresh = spec.image_builder().to_bytes(&qr).map_err(|e| e.to_string());
+            let fresh = spec.image_builder_canonical().to_bytes(&qr).map_err(|e| e.to_string());
             (a, b, fresh)
         });
         match r {
